@@ -154,10 +154,6 @@ func genC06(t *rapid.T) c06Case {
 		if st := &c.Steps[i]; st.Kind == "index" && st.Var == "" && st.I >= 0 && st.I <= 4 && rapid.IntRange(0, 5).Draw(t, "uintptrIndex") == 0 {
 			st.Var = fmt.Sprintf("uptr%d", st.I)
 		}
-		// (.a.absent, with the context as the base, is left open: a field node, not a chain)
-		if c.Base == "dot" && c.Steps[i].Name == "absentKey" && c.Steps[i].Spell == "dot" {
-			c.Steps[i].Spell = "bracket"
-		}
 	}
 	c.Expr = zPathString(zBaseExpr(c.Base), c.Steps)
 	c.Twin = zPathString(zBaseExpr(c.Base), zTwin(c.Steps))
